@@ -1573,10 +1573,30 @@ func (s *BgpServer) propagateUpdateToNeighbors(rib *table.TableManager, source *
 					}()
 				} else {
 					alreadySent := targetPeer.hasPathAlreadyBeenSent(newPath)
+					unfiltered := newPath
 					newPath := s.filterpath(targetPeer, newPath, nil)
 					// if the path is not filtered and the path has already been sent or land in the limit, we can send it
 					if newPath == nil {
 						bestList = []*table.Path{}
+						if alreadySent {
+							// The path replaces one that was advertised under the same
+							// path id but may not be advertised itself (loop prevention,
+							// export policy): withdraw that one, and give its slot to a
+							// path that was held back by the max path limit.
+							bestList = append(bestList, unfiltered.Clone(true))
+							if destination := rib.GetDestination(unfiltered); destination != nil {
+								for _, p := range destination.GetKnownPathList(targetPeer.TableID(), targetPeer.AS()) {
+									p := s.filterpath(targetPeer, p, nil)
+									if p == nil || !targetPeer.isPathSendMaxFiltered(p) {
+										continue
+									}
+									targetPeer.unsetPathSendMaxFiltered(p)
+									bestList = append(bestList, p)
+									break
+								}
+							}
+							targetPeer.updateRoutes(bestList...)
+						}
 					} else if alreadySent || targetPeer.getRoutesCount(f, newPath.GetPrefix()) < targetPeer.getAddPathSendMax(f) {
 						bestList = []*table.Path{newPath}
 						if !alreadySent {
